@@ -34,6 +34,8 @@ WEAK_PIPELINE = {
     "CommitWithoutMempoolLock": {"MempoolBracket"},
     "NoFlushBeforeCommit": {"MempoolBracket"},
     "NoEndHeightRepair": {"NoStuck"},
+    "HandshakeAcceptsAppAhead": {"JournalWellFormed"},
+    "EmptyStoreAcceptsAppAhead": {"JournalWellFormed"},
 }
 
 # attack-schedule library: crash between SaveBlock and the #ENDHEIGHT write of height h, then again
@@ -41,6 +43,30 @@ WEAK_PIPELINE = {
 ATTACKS = [{"id": "atk:endheight%d+prevote%d" % (h, h + 1),
             "crashes": [{"idx": 0, "label": "wal/endheight/%d/0" % h, "occ": 1},
                         {"idx": 0, "label": "wal/msg:prevote/%d/0" % (h + 1), "occ": 1}]} for h in (1, 2, 3)]
+
+
+def _op(label, **kw):
+    c = {"idx": 0, "label": label, "occ": 1, "rollback": 0, "app_forward": 0, "restore_bs": 0, "restore_ss": 0}
+    c.update(kw)
+    return c
+
+
+# operator-made (store, state, app) triples no crash of this node can produce; run with an application
+# whose hash only moves with transactions (hash_mode txs), so that the app-hash comparison cannot save the day
+H = HEIGHTS
+TRIPLE_ATTACKS = [
+    # app ahead of store = state (clean stop after H-1, the app went on alone by 1 / 2 empty blocks)
+    {"id": "atk:app+1", "crashes": [_op("wal/msg:*/%d/*" % H, app_forward=1)]},
+    {"id": "atk:app+2", "crashes": [_op("wal/msg:*/%d/*" % H, app_forward=2)]},
+    # the node's whole data directory is from an older backup than the app's (store = state < app)
+    {"id": "atk:data-1", "crashes": [_op("wal/msg:*/%d/*" % H, restore_bs=1, restore_ss=1)]},
+    {"id": "atk:data-1-midcommit", "crashes": [_op("mp/Update/%d/0" % H, restore_bs=2, restore_ss=1)]},
+    # store = state + 1 and the app beyond the store
+    {"id": "atk:app+1-store+1", "crashes": [_op("abci/Commit/%d/0" % H, app_forward=2)]},
+    # a brand-new node (nothing stored yet) meets an app that already has blocks
+    {"id": "atk:fresh-node-app+1", "crashes": [_op("wal/msg:*/1/*", app_forward=1)]},
+    {"id": "atk:fresh-node-app+2", "crashes": [_op("wal/msg:*/1/*", app_forward=2)]},
+]
 
 
 # ------------------------------------------------------------------------------ spec label -> harness label
@@ -87,18 +113,22 @@ def run_specs_from_tlc(scheds, prefix="tlc"):
             continue
         rid = prefix + ":" + "|".join("%s(%s,%s)%s" % (a["name"], a["h"], a["i"], "-%d" % a["rb"] if a.get("rb") else "")
                                       for a in sc)
-        out.append({"id": rid, "crashes": [{"idx": 0, "label": x, "occ": 1, "rollback": a.get("rb", 0)}
+        rid += "".join("%s" % ("[fwd%d,bs-%d,ss-%d]" % (a.get("fwd", 0), a.get("rbs", 0), a.get("rss", 0))
+                               if (a.get("fwd") or a.get("rbs") or a.get("rss")) else "") for a in sc)
+        out.append({"id": rid, "crashes": [{"idx": 0, "label": x, "occ": 1, "rollback": a.get("rb", 0),
+                                            "app_forward": a.get("fwd", 0), "restore_bs": a.get("rbs", 0),
+                                            "restore_ss": a.get("rss", 0)}
                                            for x, a in zip(labs, sc)]})
     return out, skipped
 
 
 # ------------------------------------------------------------------------------ harness plumbing
-def pipeline_input(runs, retain=None):
+def pipeline_input(runs, retain=None, hash_mode="commits"):
     return {"heights": HEIGHTS, "plan": PLAN, "param_at": PARAM_AT, "retain": RETAIN if retain is None else retain,
-            "runs": runs}
+            "hash_mode": hash_mode, "runs": runs}
 
 
-def run_pipeline(ctx, binp, runs, tag, procs, retain=None):
+def run_pipeline(ctx, binp, runs, tag, procs, retain=None, hash_mode="commits"):
     """Execute run specs on the real node, sharded over `procs` processes. Returns rows in run order."""
     if not runs:
         return []
@@ -110,7 +140,7 @@ def run_pipeline(ctx, binp, runs, tag, procs, retain=None):
         inp = os.path.join(d, "in-%d.json" % k)
         outp = os.path.join(d, "out-%d.ndjson" % k)
         with open(inp, "w") as f:
-            json.dump(pipeline_input(shards[k], retain), f)
+            json.dump(pipeline_input(shards[k], retain, hash_mode), f)
         rc, txt = ctx.run_test(binp, "^TestVerifC05Pipeline$", {"VERIF_IN": inp, "VERIF_OUT": outp},
                                timeout=1500, label="pipeline-%s-%d" % (tag, k))
         if rc != 0:
@@ -186,6 +216,7 @@ def run(ctx):
     # non-vacuity: every Weak_ switch must be refuted by TLC through the expected invariant
     nonvac = {}
     attacks = list(ATTACKS)
+    triple_attacks = list(TRIPLE_ATTACKS)
     for w, expect in WEAK_PIPELINE.items():
         rw = ctx.tlc("C05_pipeline", "C05_weak_%s.cfg" % w, timeout=600, workers=4, label="weak_" + w)
         got = {v["name"] for v in rw.violations}
@@ -198,6 +229,10 @@ def run(ctx):
             last = rw.violations[0]["trace"][-1][1]
             synth, _ = run_specs_from_tlc([to_json(last["s"])["sched"]], "atk-tlc")
             attacks = ATTACKS + synth
+        if w in ("HandshakeAcceptsAppAhead", "EmptyStoreAcceptsAppAhead") and rw.violations and rw.violations[0]["trace"]:
+            last = rw.violations[0]["trace"][-1][1]
+            synth, _ = run_specs_from_tlc([to_json(last["s"])["sched"]], "atk-tlc-" + w)
+            triple_attacks += synth
     for w in ("CommitWithoutMempoolLock", "NoFlushBeforeCommit"):
         rw = ctx.tlc("C05_mplock", "C05_mplock_weak_%s.cfg" % w, timeout=600, workers=4, label="mplock_weak_" + w)
         if rw.errors or rw.timed_out or not any(v["name"] == "NoNewCheckDuringCommit" for v in rw.violations):
@@ -229,6 +264,14 @@ def run(ctx):
                                        {"MaxHeight": HEIGHTS, "MaxCrashes": 1}, "schedules_app_rollback")
     rb_tlc_runs, rb_skipped = run_specs_from_tlc([sc for sc in scheds_rb if any(a.get("rb") for a in sc)], "tlcrb")
     exhaustive_runs.append(r_rb)
+    # every (store, state, app) triple with cursors at most 2 apart: restored data directories, an app that
+    # is ahead; ReplayBlocks' outcome table incl. its error and panic rows
+    r_tr, scheds_tr = export_schedules("C05_triples.cfg", "C05_triples_run.cfg",
+                                       {"MaxHeight": HEIGHTS, "MaxCrashes": 1}, "schedules_triples")
+    tr_tlc_runs, tr_skipped = run_specs_from_tlc(
+        [sc for sc in scheds_tr if any(a.get("fwd") or a.get("rbs") or a.get("rss") for a in sc)], "tlctr")
+    n_tr_scheds = len(tr_tlc_runs)
+    exhaustive_runs.append(r_tr)
     n_tlc_scheds = len(tlc_runs)
     if quick:
         # single-crash schedules duplicate the index-exhaustive single crashes below: replay a seeded half
@@ -290,6 +333,15 @@ def run(ctx):
         rb_tlc_runs = rb_tlc_runs[:30]
     rows_rb = run_pipeline(ctx, binp, rb_runs + rb_tlc_runs, "rb", procs, retain={})
 
+    # operator-made triples: the attack list always, TLC's triples schedules sampled in quick / all in thorough;
+    # with an app hash that ignores empty blocks, and a sample again with one that covers the height
+    rnd.shuffle(tr_tlc_runs)
+    tr_txs = triple_attacks + tr_tlc_runs[:(60 if quick else len(tr_tlc_runs))]
+    tr_c = [dict(r, id=r["id"] + "#hc") for r in (TRIPLE_ATTACKS + tr_tlc_runs[:(15 if quick else 200)])]
+    rows_tr = run_pipeline(ctx, binp, tr_txs, "triples", procs, retain={}, hash_mode="txs")
+    rows_tr += run_pipeline(ctx, binp, tr_c, "triples-hc", procs, retain={})
+    tr_skipped_runs = [r["run"] for r in rows_tr if r["ev"] == "OperatorSkipped"]
+
     # TLC schedules that the real node did not realise (a crash label that never came up)
     want_by_id = {r["id"]: len(r["crashes"]) for r in tlc_runs}
     unrealised = [rr[0]["run"] for rr in split_by_run(rows_tlc)
@@ -322,7 +374,7 @@ def run(ctx):
         raise Undecided("C05 mempool harness (v0) died: %s" % dead["v0"])
 
     # ---- 5. trace validation (TLC judges the observed behaviour) ----------------------------------
-    rows_p = free + rows_k1 + rows_k2 + rows_tlc + free_rb + rows_rb
+    rows_p = free + rows_k1 + rows_k2 + rows_tlc + free_rb + rows_rb + rows_tr
     vp = core.validate_traces(ctx, "TMCommitPipelineTrace", rows_p, label="pipeline", max_events=3000 if quick else 6000,
                                timeout=1500)
     vm = core.validate_traces(ctx, "TMMempoolLockTrace", rows_m, label="mempool", max_events=4000, timeout=1200)
@@ -330,7 +382,9 @@ def run(ctx):
     # ---- 6. verdict --------------------------------------------------------------------------------
     specs_by_id = {r["id"]: r for r in [{"id": "free", "crashes": []}] + k1_runs + attacks + k2_runs + triples + tlc_runs}
     noprune_ids = {r["id"] for r in rb_runs + rb_tlc_runs} | {"free-noprune"}
-    specs_by_id.update({r["id"]: r for r in rb_runs + rb_tlc_runs})
+    specs_by_id.update({r["id"]: r for r in rb_runs + rb_tlc_runs + tr_txs + tr_c})
+    noprune_ids |= {r["id"] for r in tr_txs + tr_c}
+    txs_hash_ids = {r["id"] for r in tr_txs}
     mspec_by_id = {r["id"]: r for r in mruns}
     verdict = core.Verdict(ctx)
     for v in vp["viol"]:
@@ -338,7 +392,8 @@ def run(ctx):
         sig = {"part": "pipeline", "inv": v["inv"], "class": v["class"], "ev": row["ev"], "op": row["op"], "k": row["k"],
                "phase": row["phase"]}
         verdict.add(sig, {"part": "pipeline", "failing_step": row, "run_spec": specs_by_id.get(row["run"]),
-                          "retain": {} if row["run"] in noprune_ids else RETAIN, "prefix": v["prefix"][-60:],
+                          "retain": {} if row["run"] in noprune_ids else RETAIN,
+                          "hash_mode": "txs" if row["run"] in txs_hash_ids else "commits", "prefix": v["prefix"][-60:],
                           "tlc": {"inv": v["inv"], "class": v["class"]}})
     for v in vm["viol"]:
         row = v["row"]
@@ -371,6 +426,19 @@ def run(ctx):
                 key = "store-state=%d,app-state=%d,app_h%s0" % (p["bs_h"] - p["ss_h"], p["app_h"] - p["ss_h"],
                                                                   "=" if p["app_h"] == 0 else ">")
                 recov[key] = recov.get(key, 0) + 1
+    hs_out = {}
+    for rr in split_by_run(rows_tr):
+        tag = None
+        for r in rr:
+            if r["ev"] in ("Restore", "Rollback"):
+                tag = "pending"
+            if tag and r["ev"] == "Op" and r["k"] == "Info":
+                p = r["post"]
+                tag = "store-state=%d,app-state=%d" % (p["bs_h"] - p["ss_h"], p["app_h"] - p["ss_h"])
+            if tag and tag != "pending" and r["ev"] in ("HandshakeDone", "HandshakeError", "Panic"):
+                key = "%s -> %s%s" % (tag, r["ev"], (":" + r["msg"]) if r["msg"] else "")
+                hs_out[key] = hs_out.get(key, 0) + 1
+                break
     minter = {}
     for r in rows_m:
         if r["ev"] == "CheckIssue":
@@ -390,9 +458,14 @@ def run(ctx):
                 "crash-point pairs and %d triples (seeded sample), plus %d crash schedules enumerated by TLC from the "
                 "bounded TMCommitPipeline model (of %d; %d not expressible); %d runs in which the application also loses 1-2 commits at "
                 "the crash (ReplayBlocks' app-behind branches; index-exhaustive in thorough, plus TLC schedules); a step is distinct by (operation, height, "
-                "phase, projected durable state), a run by its crash signature. mempool: %d concurrent runs "
+                "phase, projected durable state), a run by its crash signature. operator triples: %d runs in which, at the "
+                "restart, an older copy of the block store and/or state store (with its WAL and key state) is put back and/or "
+                "the application is 1-2 blocks ahead or behind - every (store, state, app) triple with cursors at most 2 apart, "
+                "enumerated by TLC (C05_triples) plus a fixed attack list, with an app hash that ignores empty blocks and with "
+                "one that covers the height. mempool: %d concurrent runs "
                 "(v0/v1 x local/queueing client), every stamped event validated" % (
-                    HEIGHTS, n0, len(pairs), n_pairs_total, len(triples), len(tlc_runs), n_tlc_scheds, tlc_skipped, len(rb_runs) + len(rb_tlc_runs), len(mruns)),
+                    HEIGHTS, n0, len(pairs), n_pairs_total, len(triples), len(tlc_runs), n_tlc_scheds, tlc_skipped, len(rb_runs) + len(rb_tlc_runs),
+                    len(tr_txs) + len(tr_c), len(mruns)),
         "samples": [core.abridge([{k: r[k] for k in ("ev", "op", "k", "h", "i", "inc", "phase", "msg")} | {"post": r["post"]}
                                   for r in (sample_crash[0] if sample_crash else all_runs[1])][28:60], 32),
                     core.abridge([{k: r[k] for k in ("ev", "kind", "id", "n", "ver", "client", "seq")} for r in rows_m[:40]], 40)],
@@ -412,6 +485,9 @@ def run(ctx):
         "tlc_schedules_not_realised_by_the_node": unrealised[:10],
         "tlc_schedules_not_realised_count": len(unrealised),
         "app_rollback_runs": len(rb_runs) + len(rb_tlc_runs),
+        "operator_triple_runs": {"txs_only_app_hash": len(tr_txs), "height_covering_app_hash": len(tr_c),
+                                 "tlc_triple_schedules": n_tr_scheds, "operator_action_skipped": tr_skipped_runs[:5]},
+        "handshake_outcomes_on_operator_triples": hs_out,
         "attack_schedules": [a["id"] for a in attacks],
         "mempool_runs": len(mruns),
         "mempool_events": len(rows_m),
@@ -435,6 +511,9 @@ def run(ctx):
         "single validator; consensus is driven single-threaded through handleMsg/handleTimeout (receive routine not started, "
         "explicit ticker), so crash points are deterministic",
         "the application is the harness's recording app (persistent-kvstore-like; a new BeginBlock discards an interrupted block)",
+        "operator triples: a node that REFUSES to start on cursors an operator made inconsistent is not a Progress "
+        "violation; if it does start, HeightsAgree and the journal property (relative to the height the app reports) apply; "
+        "restored copies come from plans without pruning",
         "InitChain repeated while the app still reports height 0 (crash before the first Commit) is what the statement allows",
         "mempool window: from the Commit request until Update has returned and its last recheck request has been issued "
         "(FIFO connection); the queueing client stands for the socket client; interleavings are whatever the Go scheduler "
@@ -470,7 +549,7 @@ def replay(ctx, path):
             log("replay: %s fails at %s" % (x["inv"], json.dumps(row)[:300]))
         return verdict.finish()
     spec = rep.get("run_spec") or {"id": "free", "crashes": []}
-    rows = run_pipeline(ctx, binp, [spec], "replay", 1, retain=rep.get("retain"))
+    rows = run_pipeline(ctx, binp, [spec], "replay", 1, retain=rep.get("retain"), hash_mode=rep.get("hash_mode", "commits"))
     v = core.validate_traces(ctx, "TMCommitPipelineTrace", rows, label="replay")
     for x in v["viol"]:
         row = x["row"]
